@@ -296,6 +296,8 @@ def unset(v):
         if "$set" in v:
             return sorted((unset(x) for x in v["$set"]), key=lambda x: json.dumps(x, sort_keys=True))
         if "$fn" in v:
+            if all(isinstance(k, str) for k, _ in v["$fn"]):      # a record whose field names are not identifiers
+                return {k: unset(x) for k, x in v["$fn"]}
             return [[unset(k), unset(x)] for k, x in v["$fn"]]
         if "$mv" in v:
             return v["$mv"]
